@@ -128,12 +128,17 @@ fn lit_for(v: &V) -> Option<String> {
         V::Integer(i) | V::Bigint(i) if i.unsigned_abs() < (1 << 31) => Some(if *i < 0 { format!("(0{})", i) } else { i.to_string() }),
         V::Smallint(i) => Some(if *i < 0 { format!("(0{})", i) } else { i.to_string() }),
         V::Varchar(s) if !s.chars().any(|c| c.is_control() || c == '\\') => Some(format!("'{}'", s.replace('\'', "''"))),
+        // temporal literals are spelled from the fields, not through Display
+        V::Time(t) => Some(format!("TIME '{}'", time_text(t))),
+        V::Date(d) if d.year >= 1 => Some(format!("DATE '{}'", date_text(d))),
+        V::Timestamp(ts) if ts.date.year >= 1 => Some(format!("TIMESTAMP '{} {}'", date_text(&ts.date), time_text(&ts.time))),
+        V::Boolean(b) => Some(if *b { "TRUE".into() } else { "FALSE".into() }),
         _ => None,
     }
 }
 
 fn bag(rows: &[Vec<V>]) -> Vec<String> {
-    let mut v: Vec<String> = rows.iter().map(|r| r.iter().map(val_sx).collect::<Vec<_>>().join(" ")).collect();
+    let mut v: Vec<String> = rows.iter().map(|r| r.iter().map(val_struct).collect::<Vec<_>>().join(" ")).collect();
     v.sort();
     v
 }
@@ -196,7 +201,7 @@ fn compare_dbs(orig: &mut Db, loaded: &mut Db, fmt: Fmt, rep: &mut Report) -> Ve
                         only_nonfinite = false;
                     }
                     if bad.len() < 4 {
-                        bad.push(format!("{} row {} col {}: {} vs {}", t, i, j, val_sx(p), val_sx(q)));
+                        bad.push(format!("{} row {} col {}: {} vs {}", t, i, j, val_struct(p), val_struct(q)));
                     }
                 }
             }
@@ -262,7 +267,7 @@ fn compare_dbs(orig: &mut Db, loaded: &mut Db, fmt: Fmt, rep: &mut Report) -> Ve
             let same = match (a.rows(), b.rows()) {
                 (Some(x), Some(y)) => {
                     if q.contains("ORDER BY") {
-                        x.iter().map(|r| val_sx(&r[0])).collect::<Vec<_>>() == y.iter().map(|r| val_sx(&r[0])).collect::<Vec<_>>()
+                        x.iter().map(|r| val_struct(&r[0])).collect::<Vec<_>>() == y.iter().map(|r| val_struct(&r[0])).collect::<Vec<_>>()
                     } else {
                         bag(x) == bag(y)
                     }
@@ -284,6 +289,39 @@ fn compare_dbs(orig: &mut Db, loaded: &mut Db, fmt: Fmt, rep: &mut Report) -> Ve
                     }
                 }
                 d.push(Diff { what: format!("index-driven query differs after {} round trip", fmt.name()), detail: format!("{}\noriginal: {}\nloaded:   {}", q, a.brief(), b.brief()), sig: None });
+            }
+        }
+    }
+    // one value-dependent query per column: WHERE col = <literal of an original value> (served by an
+    // index where the column has one); the literal is spelled by the harness from the original value's
+    // fields, so a value that changed in the file no longer matches it
+    for t in &t1 {
+        let Some(tab) = orig.db.get_table(t) else { continue };
+        let scan: Vec<Vec<V>> = tab.scan().iter().map(|r| r.values.clone()).collect();
+        let names: Vec<String> = tab.schema.columns.iter().map(|c| c.name.clone()).collect();
+        for (ci, c) in names.iter().enumerate() {
+            let Some(probe) = scan.iter().map(|r| &r[ci]).find(|v| lit_for(v).is_some()) else { continue };
+            let q = format!("SELECT * FROM {} WHERE {} = {}", t, c, lit_for(probe).unwrap());
+            rep.count("queries_value_dependent");
+            let (a, b) = (orig.query(&q), loaded.query(&q));
+            let same = match (a.rows(), b.rows()) {
+                (Some(x), Some(y)) => bag(x) == bag(y),
+                _ => (a.is_err() && b.is_err()) || (a.is_panic() && b.is_panic()),
+            };
+            if let Some(y) = b.rows() {
+                if !y.is_empty() {
+                    rep.count("queries_value_dependent_nonempty");
+                }
+            }
+            if !same {
+                let tr = truth_eq(&scan, ci, probe);
+                if let (Some(x), Some(y)) = (a.rows(), b.rows()) {
+                    if bag(y) == tr && bag(x) != tr {
+                        rep.count("original_db_index_inconsistent_with_its_rows(not C18)");
+                        continue;
+                    }
+                }
+                d.push(Diff { what: format!("value-dependent query differs after {} round trip", fmt.name()), detail: format!("{}\noriginal: {}\nloaded:   {}", q, a.brief(), b.brief()), sig: None });
             }
         }
     }
@@ -415,6 +453,22 @@ fn main() {
         V::Date(vibesql_types::Date::new(9999, 12, 31).unwrap()),
         V::Time(vibesql_types::Time::new(23, 59, 59, 999_999_999).unwrap()),
         V::Time(vibesql_types::Time::new(0, 0, 0, 0).unwrap()),
+        V::Time(vibesql_types::Time::new(12, 0, 0, 50_000_000).unwrap()),
+        V::Time(vibesql_types::Time::new(12, 0, 0, 1).unwrap()),
+        V::Time(vibesql_types::Time::new(1, 2, 3, 99_999_999).unwrap()),
+        V::Time(vibesql_types::Time::new(1, 2, 3, 100_000_000).unwrap()),
+        V::Time(vibesql_types::Time::new(1, 2, 3, 1_000).unwrap()),
+        V::Timestamp(vibesql_types::Timestamp::new(vibesql_types::Date::new(1, 1, 1).unwrap(), vibesql_types::Time::new(0, 0, 0, 10).unwrap())),
+        V::Timestamp(vibesql_types::Timestamp::new(vibesql_types::Date::new(9999, 12, 31).unwrap(), vibesql_types::Time::new(23, 59, 59, 999).unwrap())),
+        V::Date(vibesql_types::Date::new(999, 9, 9).unwrap()),
+        V::Interval(vibesql_types::Interval::new("1-6".into())),
+        V::Interval(vibesql_types::Interval::new("3 04:05:06.007".into())),
+        V::Numeric(0.05),
+        V::Numeric(0.001),
+        V::Double(5e-300),
+        V::Double(1e-5),
+        V::Varchar("007".into()),
+        V::Character("0.050".into()),
         V::Timestamp(vibesql_types::Timestamp::new(vibesql_types::Date::new(2024, 2, 29).unwrap(), vibesql_types::Time::new(12, 0, 0, 500_000_000).unwrap())),
         V::Interval(vibesql_types::Interval::new("5".into())),
     ];
@@ -484,6 +538,8 @@ fn main() {
             "CREATE INDEX PIX_BG ON P (BG)",
             "CREATE INDEX PIX_S ON P (S DESC, ID)",
             "CREATE UNIQUE INDEX PIX_ID ON P (ID)",
+            "CREATE INDEX PIX_TM ON P (TM)",
+            "CREATE INDEX PIX_TS ON P (TS, ID)",
         ],
         &[],
     );
@@ -504,8 +560,8 @@ fn main() {
                 V::Character("ab".into()),
                 V::Boolean(i % 2 == 0),
                 V::Date(vibesql_types::Date::new(2024, 2, 29).unwrap()),
-                V::Time(vibesql_types::Time::new(23, 59, 59, 123_456_789).unwrap()),
-                V::Timestamp(vibesql_types::Timestamp::new(vibesql_types::Date::new(1999, 12, 31).unwrap(), vibesql_types::Time::new(0, 0, 0, 0).unwrap())),
+                V::Time(vibesql_types::Time::new(23, 59, 59, [50_000_000u32, 1, 999, 99_999_999, 100_000_000][i % 5]).unwrap()),
+                V::Timestamp(vibesql_types::Timestamp::new(vibesql_types::Date::new(1999, 12, 31).unwrap(), vibesql_types::Time::new(0, 0, 0, [1_000u32, 10, 0, 5_000_000, 123_456_789][i % 5]).unwrap())),
             ],
         );
     }
